@@ -26,8 +26,8 @@ VERIF = '/verif'
 ROOT = '/tmp/mutsweep'
 
 CHECKS = {
-    'compress.c': ['C01', 'C02', 'C03', 'C04', 'C11', 'C13'],
-    'encode.c': ['C01', 'C02', 'C03', 'C20'],
+    'compress.c': ['C01', 'C02', 'C03', 'C04', 'C08', 'C11', 'C13'],
+    'encode.c': ['C01', 'C02', 'C03', 'C08', 'C20'],
     'divbwt.c': ['C01', 'C03', 'C08'],
     'decode.c': ['C05', 'C06', 'C07', 'C08', 'C09'],
     'expand.c': ['C05', 'C07', 'C09', 'C10', 'C11', 'C13', 'C15'],
